@@ -12,6 +12,7 @@ import (
 	"sort"
 	"strconv"
 	"strings"
+	"sync"
 	"time"
 )
 
@@ -202,6 +203,11 @@ func sanitize(s string) string {
 }
 
 func report(root, prop, tier string, seed int, res *checkResult, base *Baseline, known []KnownFinding, wall float64, e *Engine) int {
+	// selftests and scratch runs write their evidence/replay files elsewhere (GVC_OUT) so that the committed
+	// evidence always describes /repo itself
+	if d := os.Getenv("GVC_OUT"); d != "" {
+		root = d
+	}
 	inBase := map[string]bool{}
 	for _, n := range base.Obligations[prop] {
 		inBase[n] = true
@@ -250,9 +256,35 @@ func report(root, prop, tier string, seed int, res *checkResult, base *Baseline,
 		}
 	}
 	// try to replay counterexamples of undecided obligations: a confirmed one is a violation whatever the baseline says
-	for _, o := range append(append([]*Obligation{}, violations...), undecided...) {
-		tryReplay(e, root, prop, o)
+	// replay budget: the most promising failures first (solver gave a model), a few per run, in parallel
+	cands := append(append([]*Obligation{}, violations...), undecided...)
+	sort.SliceStable(cands, func(i, j int) bool { return (cands[i].Result == "sat") && (cands[j].Result != "sat") })
+	maxReplay := 6
+	if tier == "thorough" {
+		maxReplay = 24
 	}
+	var rc []*Obligation
+	for _, o := range cands {
+		if replayable(o) {
+			rc = append(rc, o)
+		}
+	}
+	cands = rc
+	if len(cands) > maxReplay {
+		cands = cands[:maxReplay]
+	}
+	var wg sync.WaitGroup
+	sem := make(chan bool, 4)
+	for _, o := range cands {
+		wg.Add(1)
+		go func(o *Obligation) {
+			defer wg.Done()
+			sem <- true
+			tryReplay(e, root, prop, o)
+			<-sem
+		}(o)
+	}
+	wg.Wait()
 	var stillUndecided []*Obligation
 	for _, o := range undecided {
 		if o.replayConfirmed() {
